@@ -667,9 +667,9 @@ func TestVerifC19TermEnum(t *testing.T) {
 		return
 	}
 	e := ev.For("C19")
-	maxLen, maxH := 6, 2
+	maxLen, maxH := 7, 2
 	if ev.Thorough() {
-		maxLen, maxH = 7, 3
+		maxLen, maxH = 10, 3
 	}
 	e.Rule(fmt.Sprintf("term-enum: every valid token history (S = a new handler starts, F<k> = handler k finishes, I/T = SIGINT/SIGTERM, C = main calls wait(true); events between the first signal and C are sent while nobody receives) of length <= %d with <= %d handlers, executed in lock-step (each event is sent from its handler's goroutine; the harness waits until it is delivered or wait has returned); histories that only extend one in which wait(true) has already returned are not counted; non-trivial = no handler active when the first signal is delivered, or a finish after the signal; distinct by construction", maxLen, maxH))
 	shard, nshards := ev.IntEnv("VERIF_SHARD", 0), ev.IntEnv("VERIF_NSHARDS", 1)
